@@ -5,6 +5,9 @@
 #include "lsv.h"
 #include "matrix.h"
 #include "pls.h"
+#ifndef HP_PREFILL
+#define HP_PREFILL 0
+#endif
 void harness(void){
   PLSMODEL *m; NewPLSModel(&m);
   ResizeMatrix(m->xweights,HP_M,HP_NLV); ResizeMatrix(m->xloadings,HP_M,HP_NLV); ResizeMatrix(m->yloadings,1,HP_NLV);
@@ -12,7 +15,12 @@ void harness(void){
   for(size_t k=0;k<HP_NLV;k++){ DVectorAppend(m->b,in_double(-1e3,1e3)); m->yloadings->data[0][k]=1.0; }
   for(size_t i=0;i<HP_NLV;i++)for(size_t j=0;j<=i;j++){ double s=0; for(size_t r=0;r<HP_M;r++) s+=m->xloadings->data[r][i]*m->xweights->data[r][j]; ASSUME(i==j ? s==1.0 : s==0.0); }
   matrix *x,*ts,*y; NewMatrix(&x,1,HP_M); initMatrix(&ts); initMatrix(&y); for(size_t j=0;j<HP_M;j++) x->data[0][j]=in_double(-1e3,1e3);
-  dvector *betas; initDVector(&betas);
+  dvector *betas;
+#if HP_PREFILL
+  NewDVector(&betas,HP_M); for(size_t j=0;j<HP_M;j++) betas->data[j]=in_double(-1e3,1e3);      /* re-used output vector of the final size */
+#else
+  initDVector(&betas);
+#endif
   PLSBetasCoeff(m,HP_NLV,betas);
   PLSScorePredictor(x,m,HP_NLV,ts);
   PLSYPredictor(ts,m,HP_NLV,y);
